@@ -85,6 +85,14 @@ class C05(TracedProp):
             det_shard(case, r, +1, wide=True)
         return case
 
+    def plan(self, tier):
+        # the property names the JIT-compiled and the interpreted kernels: both kinds of worker interpreter
+        p = super().plan(tier)
+        n = p["nojit"]["count"]
+        p["nojit"]["workers"] = 12
+        p["jit"] = dict(count=n // 4, workers=4, numba_threads=4)
+        return p
+
     def is_nontrivial(self, out):
         return len(trace.completed(out, "ll_table")) >= 1
 
